@@ -486,6 +486,20 @@ func PC02(args []string) string {
 		}
 		return "FAIL invalid-output " + why
 	}
+	// large files need the FFSv3 file-system GUID on their volume (when the input obeys the rule)
+	if FFS3Rule(img[lo:hi]) == "" {
+		if why := FFS3Rule(r.Out[lo:hi]); why != "" {
+			for _, o := range ops {
+				// candidate defect (fixes/C02-repack-keeps-ffsv3.diff): repack always gives the new
+				// nested volume the FFSv2 GUID; the files of an FFSv3 volume move into it as they are,
+				// so files in the large form end up in a volume that says FFSv2
+				if o.Kind == "rp" && strings.Contains(why, "compressed nested file@") {
+					return "FAIL repack-of-an-ffsv3-volume-into-an-ffsv2-volume invalid-output " + why
+				}
+			}
+			return "FAIL invalid-output " + why
+		}
+	}
 	return "ok"
 }
 
@@ -734,7 +748,7 @@ func RegisterAll() {
 	for k, v := range map[string]Op{
 		"flat": OpFlat, "createfv": OpCreateFv,
 		"edit": OpEdit, "editvalid": OpEditValid, "find": OpFind, "findx": OpFindX, "p_find_full": PFindFull, "valid": OpValid, "guidstr": OpGuidStr, "guidparse": OpGuidParse,
-		"p_c02": PC02, "p_c03": PC03, "p_c02_align": PC02Align, "p_c02_shrink": PC02Shrink, "p_c02_exact": PC02Exact, "p_c02_nofit": PC02NoFit, "p_c03_big": PC03Big, "p_c03_ro": PC03RO, "p_guid": PGuid,
+		"p_c02": PC02, "p_c03": PC03, "p_c02_align": PC02Align, "p_c02_shrink": PC02Shrink, "p_c02_exact": PC02Exact, "p_c02_nofit": PC02NoFit, "p_c02_ffs3": PC02FFS3, "p_c03_big": PC03Big, "p_c03_ro": PC03RO, "p_guid": PGuid,
 	} {
 		Register(k, v)
 	}
